@@ -1405,3 +1405,72 @@ func channelsClosedOnce(c *Ctx, r *Report, rule string) {
 	}
 	r.Floor(rule, "channel closes examined", n, 1)
 }
+
+// noCallerCodeMidUpdate: between the first change Join makes to the log's index and the store of the merged
+// heads nothing runs that the caller supplied (the sort function, the access controller): such code may panic
+// or block, and a caller that recovers finds the merged entries in the index with the heads of before — entries
+// nothing references that are no heads.
+func noCallerCodeMidUpdate(c *Ctx, r *Report, rule string) {
+	p := c.P
+	join := p.FuncI("", "IPFSLog", "Join")
+	headsF := p.Field("", "IPFSLog", "heads")
+	state := map[*types.Var]bool{p.Field("", "IPFSLog", "Entries"): true, p.Field("", "IPFSLog", "Next"): true}
+	sortFnF := p.Field("", "IPFSLog", "SortFn")
+	userCode := func(f *types.Func) bool {
+		if f == nil || f.Pkg() == nil {
+			return false
+		}
+		if f.Name() == "Sort" && f.Pkg().Path() == p.pkgPath("entry/sorting") {
+			return true // runs the comparator it is handed
+		}
+		if sig, ok := f.Type().(*types.Signature); ok && sig.Recv() != nil && types.IsInterface(sig.Recv().Type()) {
+			if nt := namedOf(sig.Recv().Type()); nt != nil && nt.Obj().Pkg() != nil && nt.Obj().Pkg().Path() == p.pkgPath("accesscontroller") {
+				return true
+			}
+		}
+		return false
+	}
+	fl := &Flow{P: p, Fn: join, May: true, Entry: Facts{}}
+	fl.Node = func(n ast.Node, f Facts) {
+		if len(logStateChanges(p, join, n, state)) > 0 {
+			f["updating"] = true
+		}
+		walkNoLit(n, func(m ast.Node) bool {
+			if as, ok := m.(*ast.AssignStmt); ok {
+				for _, l := range as.Lhs {
+					if v, _ := p.FieldSel(join, l); v == headsF {
+						delete(f, "updating")
+					}
+				}
+			}
+			return true
+		})
+	}
+	fl.Run()
+	ncall := 0
+	fl.Visit(func(_ *cfgBlk, n ast.Node, before Facts) {
+		if !before["updating"] {
+			return
+		}
+		walkNoLit(n, func(m ast.Node) bool {
+			call, ok := m.(*ast.CallExpr)
+			if !ok {
+				return true
+			}
+			ncall++
+			bad := ""
+			// a call through the log's sort-function field
+			if v, _ := p.FieldSel(join, call.Fun); v == sortFnF {
+				bad = "the log's sort function"
+			}
+			if bad == "" && c.CallReaches(join, call, userCode) {
+				bad = "code the caller supplied (the sort function or the access controller), through " + types.ExprString(call.Fun)
+			}
+			r.Check(bad == "", rule, r.Key(rule, join, "mid-update-call", types.ExprString(call.Fun)), call.Pos(),
+				"nothing the caller supplied runs between the first index update and the store of the merged heads",
+				fmt.Sprintf("Join runs %s after it has started filing the new entries and before it has stored the merged heads: if that code panics (and the caller recovers) or never returns, the log keeps the merged entries with the heads of before — unreferenced entries that are no heads", bad))
+			return true
+		})
+	})
+	r.Floor(rule, "calls between the first index update and the heads store in Join", ncall, 3)
+}
